@@ -251,6 +251,28 @@ def run(chk, replay=None):
             if len(r) != 1 or str(g.quadkeys[int(r[0])]) != q:
                 chk.violation('quadkeys:lookup', {'set': name, 'quadkey': q, 'point': [lon, lat], 'got': [int(x) for x in r]})
                 break
+        # many points in one call, some of them in holes of the grid (tiles that are not part of the set) or beyond the
+        # latitude limits: the answer lists the containing cell of every point that has one, in order, and nothing else
+        qk_index = {q: i for i, q in enumerate(str(x) for x in g.quadkeys)}
+        for rep in range(4 if quick else 30):
+            lons_b, lats_b, want = [], [], []
+            for _ in range(rng.choice([1, 2, 7, 40])):
+                lon = rng.uniform(-180.0, 180.0)
+                lat = rng.uniform(-84.9, 84.9) if rng.random() < 0.9 else rng.choice([-88.0, 87.5])
+                lons_b.append(lon)
+                lats_b.append(lat)
+                if abs(lat) < 85.0:
+                    deep = mercantile.quadkey(mercantile.tile(lon, lat, 12))
+                    hit = [qk_index[deep[:k]] for k in range(1, 13) if deep[:k] in qk_index]
+                    want += hit[:1]
+            for style in ('list', 'array'):
+                r = guarded(g.get_index_of, lons_b if style == 'list' else numpy.array(lons_b), lats_b if style == 'list' else numpy.array(lats_b))
+                chk.count()
+                got = None if isinstance(r, Raised) else [int(x) for x in numpy.asarray(r).reshape(-1)]
+                if got != want:
+                    chk.violation('quadkeys:batch lookup', {'set': name, 'style': style, 'n_points': len(lons_b), 'got': repr(r)[:200] if got is None else got[:20],
+                                                            'expected': want[:20], 'points_head': list(zip(lons_b, lats_b))[:5]})
+                    break
         chk.nontrivial('set|%s' % name)
 
     chk.log('quadkey sets done')
